@@ -245,7 +245,9 @@ func (w *Watcher) fetchEvents(ctx context.Context, logger *zap.Logger, client *C
 				unconfirmedEvents = append(unconfirmedEvents, unconfirmed...)
 
 				fromIndex = events.NextStart
-				if events.NextStart == *count {
+				// The node may already serve events beyond the count polled above (they arrived
+				// between the two requests), in which case NextStart overshoots count.
+				if events.NextStart >= *count {
 					break
 				}
 			}
